@@ -345,6 +345,11 @@ fn run_step<'a>(s: &mut Session<'a>, step: &J) -> J {
             let it = s.its[i].as_mut().expect("no interpreter");
             let r = it.eval(text.chars());
             let mut o = project_outcome(&r);
+            if step.get("print").and_then(|x| x.as_bool()).unwrap_or(false) {
+                if let Ok(Some(v)) = &r {
+                    o["printed"] = cps(&format!("{}", v));      // what display writes for the value
+                }
+            }
             o["ticks"] = take_ticks();
             let pr = take_probes();
             if pr.as_array().map(|a| !a.is_empty()).unwrap_or(false) {
